@@ -21,6 +21,7 @@
  *   residue <mode> [hex]                           receive-buffer painting
  *   sysrc <n>                                      return value of system()
  *   users                                          dump server session table
+ *   cstate <k>                                     dump the tunnel state of client k
  *   quit
  */
 #define _GNU_SOURCE
@@ -730,6 +731,31 @@ static const char *encname(const struct encoder *e)
 
 extern unsigned usercount;
 
+/* ---------- client tunnel state (file-scope statics of client.c, made visible by objcopy in tools/build.py) ---------- */
+#define CLIDECL(k) \
+	extern struct packet cli##k##_outpkt, cli##k##_inpkt; \
+	extern int cli##k##_outchunkresent, cli##k##_lazymode; \
+	extern uint16_t cli##k##_chunkid, cli##k##_chunkid_prev, cli##k##_chunkid_prev2; \
+	extern long cli##k##_send_ping_soon;
+CLIDECL(0)
+CLIDECL(1)
+CLIDECL(2)
+
+#define CLIDUMP(k) \
+	fprintf(out, "cstate {\"c\":%d,\"out\":[%d,%d,%d,%d,%d],\"in\":[%d,%d,%d],\"resent\":%d," \
+		"\"id\":%u,\"idp\":%u,\"idp2\":%u,\"ps\":%ld,\"lazy\":%d}\n", k, \
+		cli##k##_outpkt.seqno & 255, cli##k##_outpkt.fragment & 255, cli##k##_outpkt.len, cli##k##_outpkt.offset, \
+		cli##k##_outpkt.sentlen, cli##k##_inpkt.seqno & 255, cli##k##_inpkt.fragment & 255, cli##k##_inpkt.len, \
+		cli##k##_outchunkresent, (unsigned) cli##k##_chunkid, (unsigned) cli##k##_chunkid_prev, \
+		(unsigned) cli##k##_chunkid_prev2, cli##k##_send_ping_soon, cli##k##_lazymode)
+
+static void dump_client(int k)
+{
+	if (k == 0) CLIDUMP(0);
+	else if (k == 1) CLIDUMP(1);
+	else if (k == 2) CLIDUMP(2);
+}
+
 static void dump_users(void)
 {
 	unsigned i;
@@ -959,6 +985,8 @@ int main(int argc, char **argv)
 			}
 		} else if (!strcmp(tok[0], "users")) {
 			dump_users();
+		} else if (!strcmp(tok[0], "cstate") && nt == 2) {
+			dump_client(atoi(tok[1]));
 		} else {
 			emit("error badcmd %s", tok[0]);
 		}
